@@ -50,6 +50,15 @@ func configs() []cfg {
 		// the table starts above empty (volumes below the first point use the first point's values)
 		{"n=3-first-point-above-empty", []float64{2, 5, 10}, []float64{5e5, 1e6, 3e6}, []float64{0, 1e5, 4e5}},
 	}
+	// a long table (20 points on a parabola): a lookup that treats long tables differently must still find the segment
+	{
+		t := lva{n: "n=20-parabola"}
+		for i := 0; i < 20; i++ {
+			h := 10 * float64(i) / 19
+			t.l, t.v, t.a = append(t.l, h), append(t.v, 3e6*h*h/100), append(t.a, 4e5*h/10)
+		}
+		lvas = append(lvas, t)
+	}
 	for _, t := range lvas {
 		n := len(t.v)
 		rels := map[string][2][]float64{}
